@@ -191,6 +191,13 @@ def repeated_named_case(rng, used, names):
 
 TAGS = ['json:"%s"', 'json:"%s,omitempty"', 'json:"%s,omitzero"', 'json:"%s,omitempty,omitzero"', "", 'json:",omitempty"', 'json:"-"',
         'json:"-,"', 'json:"%s" jsonschema:"described"']
+# BLANKS around the comma-separated parts of a json tag: encoding/json trims nothing. A blank before the comma / at either end belongs
+# to the NAME (`json:"id ,omitempty"` names the key "id ", `json:"- "` is the key "- ", not "omit"); an option spelled with a blank
+# (` omitempty`, `omitzero `) is an unknown option and is ignored: the field is always written (drawn for ~8% of the fields)
+BLANK_TAGS = ['json:"%s ,omitempty"', 'json:"%s, omitempty"', 'json:"%s,omitzero "', 'json:" %s"', 'json:"%s "', 'json:"%s, omitzero"',
+              'json:"%s,omitempty ,omitzero"', 'json:"%s , omitempty"', 'json:" %s ,omitzero"', 'json:"%s,omitempty "', 'json:", omitempty"',
+              'json:",omitzero "', 'json:"%s, omitempty,omitzero"', 'json:"%s,omitempty, omitzero"', 'json:"%s ,"', 'json:"- "', 'json:" -"',
+              'json:"%s, omitempty" jsonschema:"described"']
 
 
 def gen_type(rng, depth, used, allow_known=0.04, allow_rec=0.0, allow_bad=0.0):
@@ -233,7 +240,12 @@ def gen_type(rng, depth, used, allow_known=0.04, allow_rec=0.0, allow_bad=0.0):
     names = rng.sample(["A", "B", "C", "D", "E", "Foo", "Bar"], rng.randint(0, 4))
     jnames = []
     for n in names:
-        tag = rng.choice(TAGS)
+        tag = rng.choice(BLANK_TAGS) if rng.random() < 0.08 else rng.choice(TAGS)
+        if tag in ('json:"- "', 'json:" -"'):
+            if tag[6:-1] in jnames:
+                tag = ""
+            else:
+                jnames.append(tag[6:-1])
         if tag == 'json:"-,"':
             if "-" in jnames:
                 tag = ""
@@ -243,7 +255,11 @@ def gen_type(rng, depth, used, allow_known=0.04, allow_rec=0.0, allow_bad=0.0):
             jn = rng.choice(TAG_NAMES)
             while jn in jnames:
                 jn += "1"
-            jnames.append(jn)
             tag = tag % jn
+            jn = tag[6:].split('"')[0].split(",")[0]      # the name as encoding/json reads it (blanks included)
+            while jn in jnames:                          # (only reachable through the blank spellings)
+                tag = tag.replace(jn, jn + "1", 1)
+                jn = tag[6:].split('"')[0].split(",")[0]
+            jnames.append(jn)
         fields.append({"name": n, "tag": tag, "t": gen_type(rng, depth - 1, used, allow_known, allow_rec, allow_bad)})
     return {"k": "struct", "fields": fields}
